@@ -74,6 +74,14 @@ func (m *joinModel) isStart(v string) (bool, int) {
 	return false, -1
 }
 
+// isContAny: isCont for the join kind, or for a known template of join_template.
+func (m *joinModel) isContAny(tpl int, v string) bool {
+	if m.cs.Kind != "join" && (tpl < 0 || tpl >= len(m.tpls)) {
+		return false
+	}
+	return m.isCont(tpl, v)
+}
+
 func (m *joinModel) isCont(tpl int, v string) bool {
 	if m.cs.Kind == "join" {
 		return m.cont.MatchString(v) != m.cs.Negate
@@ -120,22 +128,36 @@ type evView struct {
 // viewEvent decodes an event with encoding/json (independent of insane-json),
 // extracts the string value at path and canonicalises the rest.
 func viewEvent(js string, path []string) (evView, error) {
-	var v evView
+	v, _, _, err := viewEventStrip(js, path, "")
+	return v, err
+}
+
+// viewEventStrip is viewEvent for an event that passed an action which adds the
+// top-level member `strip`: the member is taken out of the canonical form and
+// returned (value if it is a string, whether it was there).
+func viewEventStrip(js string, path []string, strip string) (v evView, stripVal string, had bool, err error) {
 	dec := json.NewDecoder(strings.NewReader(js))
 	dec.UseNumber()
 	var root any
 	if err := dec.Decode(&root); err != nil {
-		return v, err
+		return v, "", false, err
 	}
 	if dec.More() {
-		return v, fmt.Errorf("trailing data after the JSON value")
+		return v, "", false, fmt.Errorf("trailing data after the JSON value")
 	}
 	obj, ok := root.(map[string]any)
 	if !ok {
-		return v, fmt.Errorf("not an object")
+		return v, "", false, fmt.Errorf("not an object")
 	}
 	if s, ok := obj["id"].(string); ok {
 		v.ID = s
+	}
+	if strip != "" {
+		if x, ok := obj[strip]; ok {
+			had = true
+			stripVal, _ = x.(string)
+			delete(obj, strip)
+		}
 	}
 	cur := obj
 	for i, k := range path {
@@ -159,7 +181,7 @@ func viewEvent(js string, path []string) (evView, error) {
 	var b bytes.Buffer
 	canonWrite(&b, root)
 	v.Canon = b.String()
-	return v, nil
+	return v, stripVal, had, nil
 }
 
 // ---------------------------------------------------------------------------
@@ -258,6 +280,8 @@ func lineBrief(ln *Line) map[string]any {
 	m := map[string]any{"id": ln.ID, "t_call_us": ln.TCall / 1000, "t_ret_us": ln.TRet / 1000}
 	if ln.HasField {
 		m["value"] = short(ln.Value, 160)
+	} else if ln.NonStr != "" {
+		m["field"] = "not a string: " + ln.NonStr
 	} else if ln.Content != "" {
 		m["content"] = short(ln.Content, 160)
 		m["partial"] = ln.Partial
@@ -266,6 +290,9 @@ func lineBrief(ln *Line) map[string]any {
 	}
 	if ln.Drop {
 		m["dropped_by_discard_action"] = true
+	}
+	if ln.PostDrop {
+		m["discarded_by_the_action_behind_join"] = true
 	}
 	if ln.Pause {
 		m["pause_after"] = true
@@ -341,8 +368,91 @@ func checkJoinStream(cs *Case, so *streamObs, st *oracleStats) *Viol {
 	// idleBefore: in the reading of the code the action may have been idle when
 	// lines[pos] arrived (evidence only: tells a time-out from the strict reading)
 	idleBefore := true
+	// lastTpl: template of the last run; afterNonStr: the previous line was a
+	// non-string value that ended that run (evidence only)
+	lastTpl, afterNonStr := -1, false
 	for pos < len(lines) {
 		ln := lines[pos]
+		if ln.PostDrop {
+			// the action behind the joining action removes the event that carries this
+			// line's members: deliberately dropped, nothing of it may be seen
+			if a < len(outs) && outs[a].view.ID == ln.ID {
+				return mk("following-action-not-applied", fmt.Sprintf("event %s reached the output although the discard action that follows the joining action matches it (pd = \"1\")", ln.ID), pos, a)
+			}
+			isS, tpl := false, -1
+			if ln.HasField {
+				isS, tpl = m.isStart(ln.Value)
+			}
+			afterNonStr = false
+			if !isS {
+				st.add("post_discarded_passthrough", 1)
+				busyBefore, idleBefore = false, true
+				pos++
+				continue
+			}
+			// a whole run is dropped: its lines vanish up to the end of the run, or -
+			// after a time-out - up to an earlier continuation line, which then passes
+			// (or is dropped) on its own like the ones behind it
+			e := pos + 1
+			for e < len(lines) && lines[e].HasField {
+				if s2, _ := m.isStart(lines[e].Value); s2 || !m.isCont(tpl, lines[e].Value) {
+					break
+				}
+				e++
+			}
+			j := len(lines)
+			if a < len(outs) {
+				if k, ok := idx[outs[a].view.ID]; ok && k > pos {
+					j = k
+				}
+				// (an unknown or an earlier id is reported by the next round of the walk)
+			}
+			q := e
+			if j < e {
+				justified := false
+				var maxGap int64
+				for c := j; c > pos; c-- {
+					ok, g := gapPermitsTimeout(cs, so.Raw, lines[c-1], lines[c])
+					if g > maxGap {
+						maxGap = g
+					}
+					if ok {
+						justified = true
+						break
+					}
+					if !lines[c-1].PostDrop {
+						break // lines[c-1] is not at the output: it was part of the run
+					}
+				}
+				if !justified {
+					return mk("run-split-without-timeout", fmt.Sprintf("the run of %s (dropped by the action behind the joining action) ended before continuation line %s although no stream time-out was possible there (largest feeder gap %d ms < event_timeout %d ms)", ln.ID, lines[j].ID, maxGap/1e6, cs.EventTimeoutMs), pos, a)
+				}
+				st.add("timeout_splits", 1)
+				st.add("post_discarded_run_split_by_timeout", 1)
+				q = j
+			}
+			if q-pos > 1 {
+				st.add("post_discarded_joined_runs", 1)
+			} else {
+				st.add("post_discarded_single_runs", 1)
+			}
+			byEvent := false
+			if q == e && e < len(lines) {
+				if byTimeout, _ := gapPermitsTimeout(cs, so.Raw, lines[e-1], lines[e]); !byTimeout {
+					// the run was still held when the event that ended it arrived
+					byEvent = true
+					st.add("post_discarded_run_ended_by_event", 1)
+					if e+1 < len(lines) {
+						st.add("post_discarded_run_ended_by_event_more_follow", 1)
+					}
+				}
+			}
+			st.fp(fmt.Sprintf("%s/%s/post=%s/dropped-run/len=%s/by-event=%v", kind, cs.Family, cs.Post, bucket(q-pos), byEvent))
+			busyBefore, idleBefore = byEvent, !byEvent
+			lastTpl = tpl
+			pos = q
+			continue
+		}
 		if a >= len(outs) {
 			isS, _ := m.isStart(ln.Value)
 			if ln.HasField && isS {
@@ -402,11 +512,31 @@ func checkJoinStream(cs *Case, so *streamObs, st *oracleStats) *Viol {
 					st.add("nomatch_ended_run", 1)
 				}
 			}
+			if afterNonStr && ln.HasField && lastTpl >= -1 && m.isContAny(lastTpl, ln.Value) {
+				// a continuation-looking line behind the non-string event that ended the run
+				st.add("cont_after_nonstring_not_glued", 1)
+			}
+			afterNonStr = false
+			if ln.NonStr != "" {
+				st.add("nonstring_passed", 1)
+				if busyBefore {
+					st.add("nonstring_ended_run", 1)
+					afterNonStr = true
+				} else {
+					st.add("nonstring_passed_idle", 1)
+				}
+				st.fp(fmt.Sprintf("%s/%s/nonstring/%s/ended-run=%v", kind, cs.Family, nonStrClass(ln.NonStr), busyBefore))
+			}
+			if cs.Post != "" {
+				st.add("post_kept_passthrough", 1)
+			}
 			busyBefore, idleBefore = false, true
 			pos++
 			a++
 			continue
 		}
+		afterNonStr = false
+		lastTpl = tpl
 		// a run starts here
 		e := pos + 1
 		for e < len(lines) && lines[e].HasField {
@@ -425,6 +555,25 @@ func checkJoinStream(cs *Case, so *streamObs, st *oracleStats) *Viol {
 				return mk("duplicate-event", fmt.Sprintf("event %s reached the output again after later events of its stream", outs[a+1].view.ID), pos, a+1)
 			}
 			q = j
+		}
+		if cs.Post != "" {
+			// events that the action behind the joining action dropped are not at the
+			// output: the next visible event does not show where the run ended
+			// (what follows the run is decided by the next rounds of the walk). After a
+			// time-out, dropped continuation lines may sit between the split and the
+			// next visible event; the joined value tells where the split was
+			if q > e {
+				q = e
+			}
+			for c := q; c > pos; c-- {
+				if concat(lines[pos:c]) == ev.view.Value {
+					q = c
+					break
+				}
+				if !lines[c-1].PostDrop {
+					break
+				}
+			}
 		}
 		if q > e {
 			// more lines vanished than the run holds
@@ -562,6 +711,8 @@ func checkJoinStream(cs *Case, so *streamObs, st *oracleStats) *Viol {
 				endBy = "timeout"
 			case strictEnd:
 				endBy = "nomatch"
+			case lines[q].NonStr != "":
+				endBy = "nonstring"
 			case !lines[q].HasField:
 				endBy = "missing"
 			default:
@@ -572,6 +723,13 @@ func checkJoinStream(cs *Case, so *streamObs, st *oracleStats) *Viol {
 		}
 		st.add("run_end_by_"+endBy, 1)
 		fp := fmt.Sprintf("%s/%s/len=%s/end=%s/empty=%v/limited=%v/tpl=%d", kind, cs.Family, bucket(n), endBy, hasEmpty, limited, tpl)
+		if cs.Post != "" {
+			st.add("post_kept_runs", 1)
+			if n > 1 {
+				st.add("post_kept_joined_runs", 1)
+			}
+			fp += "/post=" + cs.Post
+		}
 		if cs.Match != "" {
 			endNM := q < len(lines) && lines[q].NoMatch
 			fp += fmt.Sprintf("/match=%s/nomatch-inside=%v/nomatch-start=%v/ended-by-nomatch=%v", cs.Match, nmIn, ln.NoMatch, endNM)
